@@ -18,7 +18,7 @@ Proof.
   - assert (He : tkind_eqb k TkEof = false) by (destruct k; try discriminate; reflexivity).
     rewrite He in Hs. destruct Hs as [_ Hr]. cbn [orb]. exact (IH Hr).
   - cbn [orb]. eexists. split; [reflexivity|]. destruct (tkind_eqb k TkEof) eqn:He.
-    + apply tkind_eqb_eq in He. subst r. cbn. exact He.
+    + apply tkind_eqb_eq in He. destruct Hs as [-> _]. cbn. exact He.
     + cbn. auto.
 Qed.
 
